@@ -426,7 +426,7 @@ func (c *fsCache) set(key string, entry []byte) error {
 	}
 	name := c.fn.FileName(key)
 	dir := filepath.Dir(name)
-	if err := c.root.MkdirAll(dir, 0o755); err != nil {
+	if err := c.mkdirAll(dir); err != nil {
 		return err
 	}
 	// Write a temporary file and rename it over the destination: a concurrent
@@ -449,6 +449,21 @@ func (c *fsCache) set(key string, entry []byte) error {
 	}
 	if err != nil {
 		_ = c.root.Remove(tmp)
+	}
+	return err
+}
+
+// mkdirAll creates dir and its parents. [os.Root.MkdirAll] fails with "file
+// exists" when another goroutine (a Set of a key that shares a fragment
+// directory) creates one of the parents at the same moment; whoever lost that
+// race finds the directory there at the next attempt. Every such failure means
+// one more component exists, so the attempts are bounded by the depth.
+func (c *fsCache) mkdirAll(dir string) error {
+	var err error
+	for range strings.Count(dir, string(filepath.Separator)) + 2 {
+		if err = c.root.MkdirAll(dir, 0o755); !errors.Is(err, os.ErrExist) {
+			return err
+		}
 	}
 	return err
 }
